@@ -98,7 +98,20 @@ def body(E, cfg):
     E.assume(reflen >= r[-1])
     R = OpticalMap(3, reflen, list(r))
     Q = OpticalMap(11, qrawlen, list(qraw)).trim()
-    rev, spec = FIRST[cfg["first"]]
+    if cfg["first"] == "any":
+        # any valid matching of 1..3 pairs over the first 4 reference / 5 query labels, in one segment or split in two
+        rev = cfg["rev"]
+        m = E.choose([1, 2, 3], "pairs")
+        ridx = [E.choose(range(1, 5), "ref-label")]
+        qidx = [E.choose(range(1, 6), "qry-label")]
+        for _ in range(m - 1):
+            ridx.append(E.choose(range(ridx[-1] + 1, 5), "ref-label"))
+            qidx.append(E.choose(range(1, qidx[-1]) if rev else range(qidx[-1] + 1, 6), "qry-label"))
+        cut = E.choose(range(0, m), "segment-split")
+        segspec = [(ridx, qidx)] if cut == 0 else [(ridx[:cut], qidx[:cut]), (ridx[cut:], qidx[cut:])]
+        spec = lambda KR_, KQ_: segspec
+    else:
+        rev, spec = FIRST[cfg["first"]]
     rows = []
     F = mkrow_multi(E, R, Q, rev, spec(KR, KQ), "F")
     if F is None:
@@ -186,6 +199,10 @@ def configs(tier):
     if tier != "quick":
         for f in FIRST:
             cfgs.append(dict(KR=7, KQ=12, first=f, second="fwd-tail"))
+        for rev in (False, True):
+            for s in SECOND:
+                cfgs.append(dict(KR=6, KQ=6, first="any", rev=rev, second=s))
+            cfgs.append(dict(KR=6, KQ=11, first="any", rev=rev, second="fwd-tail"))
     return cfgs
 
 
@@ -204,5 +221,5 @@ def units(prop):
         assumptions=["generated rows are valid matchings (C01)", "pair scores > 0"],
         stubs=["numbers are rendered as marker tokens through the real pandas writer (format spec recorded; digits not produced)"],
         outside=["decimal rendering of the numbers (C code)", "CMAP parsing (pandas)", "more than 3 records"],
-        shard_depth=lambda cfg, tier: 12,
+        shard_depth=lambda cfg, tier: 6,
     )]
